@@ -10,6 +10,7 @@ import JanetModel.Spec.Emit
 import JanetModel.Spec.CallSite
 import JanetModel.Spec.FixedEmit
 import JanetModel.Spec.VariadicEmit
+import JanetModel.Spec.Snapshot
 open Driver JanetModel.Spec JanetModel.Gen.Cfuns JanetModel.Gen.Bytecode JanetModel.Bytecode.VM
 
 def dropFirst (s : String) (k : Nat) : String := String.ofList (s.toList.drop k)
@@ -187,4 +188,38 @@ def handleChain (toks : List String) : Option String :=
     | _, _ => some "bad-request"
   | _ => none
 
-def main : IO Unit := runLoop () (fun s toks => (s, (handleChain toks).getD ((handleFixed toks).getD ((handleCall toks).getD (handle toks)))))
+/-! ### variadic arithmetic with `var` operands: `snapchain <tagName> <kind>*`, kind = v (parameter register) | m (a `var` local initialised
+     from a parameter) | c:<int> (constant).  Parameters live in registers 0..np-1 in operand order, the j-th `var` in register np+j, the fresh
+     snapshot registers follow, the target is the next register: the code `Spec.emitOpreduceSnap` gives (what `opreduce` emits, without the
+     `movn` of the `(var ..)` forms in front and the `ret` behind) -/
+
+def handleSnap (toks : List String) : Option String :=
+  match toks with
+  | "snapchain" :: tag :: kinds =>
+    match optimizers.find? (fun r => r.tagName == tag) with
+    | some r =>
+      match r.handler with
+      | .opreduce op opim _ _ =>
+        let np := (kinds.filter (fun k => k == "v" || k == "m")).length
+        let nm := (kinds.filter (· == "m")).length
+        let step := fun (acc : List MArg × Nat × Nat × Bool) (k : String) =>
+          let (out, pi, vj, ok) := acc
+          if k == "v" then (out ++ [MArg.reg pi false], pi + 1, vj, ok)
+          else if k == "m" then (out ++ [MArg.reg (np + vj) true], pi + 1, vj + 1, ok)
+          else if k.startsWith "c:" then
+            match (dropFirst k 2).toInt? with
+            | some i => (out ++ [MArg.imm i], pi, vj, ok && opim.isSome && immMin ≤ i && i ≤ immMax)
+            | none => (out, pi, vj, false)
+          else (out, pi, vj, false)
+        let (margs, _, _, ok) := kinds.foldl step ([], 0, 0, true)
+        match ok, margs with
+        | true, .reg a0 _ :: y :: more =>
+          let free := np + nm
+          let t := free + nmut more
+          some ("code=" ++ ",".intercalate ((emitOpreduceSnap op opim free t a0 y.plain more).map showInstr) ++ " target=" ++ toString t)
+        | _, _ => some "code=-"
+      | _ => some "code=-"
+    | none => some "bad-request"
+  | _ => none
+
+def main : IO Unit := runLoop () (fun s toks => (s, (handleSnap toks).getD ((handleChain toks).getD ((handleFixed toks).getD ((handleCall toks).getD (handle toks))))))
